@@ -196,7 +196,10 @@ pub(super) fn prepare_call_parameters(
     let mut fn_arg_prep: proc_macro2::TokenStream = proc_macro2::TokenStream::new();
 
     for (parameter_name, parameter_type) in parameters {
-        let ident = syn::Ident::new(parameter_name, proc_macro2::Span::call_site());
+        let ident = syn::Ident::new(
+            &escaped_rust_name(parameter_name.clone()),
+            proc_macro2::Span::call_site(),
+        );
         let ty = trustfall_type_to_rust_type(parameter_type);
         fn_params.extend(quote! {
             #ident: #ty,
